@@ -17,7 +17,8 @@ from ropt.transforms import OptModelTransforms, VariableScaler
 ID = "C14"
 LEVEL = "fault_enumeration"
 RULE = (
-    "fault sequences = (evaluator call index k, set of (realization, unperturbed | perturbation p) rows that return NaN, "
+    "fault sequences = (evaluator call index k, set of (realization, unperturbed | perturbation p) rows that return NaN - for "
+    "batches (vectorized differential evolution, evaluator steps with several vectors) in all vectors or in chosen vectors only, "
     "persistent from k on | only at k). Exhaustive: optimizer step, R=2, P=2, every k < 6, every row subset of that call, "
     "realization_min_success 0..2, perturbation_min_success 1..2, methods slsqp (plain, split, speculative = functions and gradient in one evaluation), nelder-mead, differential "
     "evolution - exit code and last evaluation predicted exactly from the injected faults; every max_functions from 1 to "
@@ -77,7 +78,10 @@ def build(case: dict[str, Any]) -> tuple[dict[str, Any], AffineEvaluator, OptMod
     if fault:
         col = ("obj", 0) if fault.get("col", 0) == 0 or not c_n else ("con", 0)
         calls = range(fault["call"], fault["call"] + 60) if fault["persistent"] else [fault["call"]]
-        ev.fail = {(k, r, p): [col] for k in calls for r, p in fault["rows"]}
+        if fault.get("members") is None:
+            ev.fail = {(k, r, p): [col] for k in calls for r, p in fault["rows"]}
+        else:  # only some vectors of a batch (population members) fail
+            ev.fail = {(k, r, p, j): [col] for k in calls for r, p in fault["rows"] for j in fault["members"]}
     if case.get("raise_at") is not None:
         def hook(call: int, variables: np.ndarray, context: Any) -> None:  # noqa: ANN401, ARG001
             if call == case["raise_at"]:
@@ -143,12 +147,12 @@ def fatal_calls(case: dict[str, Any], ev: AffineEvaluator) -> list[int]:
         if has_f:
             nvec = int(np.sum(perts < 0)) // r_n
             for v in range(nvec):
-                f_failed = np.array([(r, -1) in bad for r in range(r_n)])
+                hit = fault is None or fault.get("members") is None or v in fault["members"]
+                f_failed = np.array([hit and (r, -1) in bad for r in range(r_n)])
                 ns = int((~f_failed).sum())
                 if ns < rmin or (ns == 0 and not allow_nan):
                     is_fatal = True
                 last_f_failed = f_failed
-                del v
         if has_g:
             g_failed = last_f_failed.copy()
             for r in range(r_n):
@@ -240,6 +244,9 @@ def run_evaluator_step_case(case: dict[str, Any]) -> dict[str, Any]:
     fault = case.get("fault")
     bad = {tuple(rp) for rp in fault["rows"]} if fault and fault["call"] == 0 else set()
     ns = r_n - sum((r, -1) in bad for r in range(r_n))
+    nvec = len(case.get("batch") or [0])
+    if fault and fault.get("members") is not None and not any(j < nvec for j in fault["members"]):
+        ns = r_n  # the failing vector does not exist in this batch
     if not case.get("filter") and case.get("estimator", "mean") == "mean":
         exp = OptimizerExitCode.TOO_FEW_REALIZATIONS if ns < rmin else OptimizerExitCode.EVALUATION_STEP_FINISHED
         check(out["code"] == exp, "evaluator-step-code", f"{ns} successes, min {rmin}: exit code {out['code'].name}, expected {exp.name}", case)
@@ -320,6 +327,26 @@ def exhaustive_shard(item: dict[str, Any]) -> Collector:
                         col.case((method, k, rows, rmin, pmin, persistent), nontrivial=k >= 1 and bool(info.get("reached")),
                                  classes=(f"method={method}", f"call={k}", "persistent" if persistent else "transient",
                                           f"code={getattr(info.get('code'), 'name', None)}"), sample=case)
+        if method == "de-vec":  # a single member of the population fails (every position in the batch)
+            r_n = default_case(method)["R"]
+            for k in range(ncalls):
+                if k % item["parts"] != item["part"]:
+                    continue
+                members = len(base["ev"].calls[k]["realizations"]) // r_n
+                for size in range(1, r_n + 1):
+                    for rows in itertools.combinations([(r, -1) for r in range(r_n)], size):
+                        for j, rmin in itertools.product(range(members), (0, 1, 2)):
+                            case = default_case(method)
+                            case.update({"rmin": rmin, "fault": {"call": k, "rows": [list(r) for r in rows], "persistent": False, "members": [j]}})
+                            info = {}
+
+                            def gom(case: dict[str, Any] = case, info: dict[str, Any] = info) -> None:
+                                info.update(run_fault_case(case))
+
+                            guard_call(col, case, gom)
+                            col.case((method, k, rows, rmin, "member", j), nontrivial=bool(info.get("reached")),
+                                     classes=(f"method={method}", f"call={k}", "single-member-fault", f"code={getattr(info.get('code'), 'name', None)}"),
+                                     sample=case)
     elif item["what"] == "filters":
         filters = [{"method": "sort-objective", "options": {"sort": [0], "first": 0, "last": 1}},
                    {"method": "cvar-objective", "options": {"sort": [0], "percentile": 0.5}},
@@ -389,7 +416,10 @@ def hypothesis_shard(item: dict[str, Any]) -> Collector:
         if kind == "evstep":
             case["step"] = "evaluator"
             case["fault"]["call"] = 0
-            case["batch"] = [[draw(st.sampled_from([0.0, 0.5])), 0.1] for _ in range(draw(st.integers(1, 2)))]
+            case["batch"] = [[draw(st.sampled_from([0.0, 0.5])), 0.1] for _ in range(draw(st.integers(1, 3)))]
+        if (kind == "evstep" or (kind == "fault" and method == "de-vec")) and draw(st.booleans()):
+            # only some vectors of a batch (population members / evaluator-step vectors) fail
+            case["fault"]["members"] = sorted(draw(st.sets(st.integers(0, 3), min_size=1, max_size=2)))
         return case
 
     def body(case: dict[str, Any]) -> None:
